@@ -2,49 +2,6 @@
    defect), with their witnesses, and the strongest parts that do hold. *)
 From V Require Import Common.Base C03.Num C03.SpecOps C03.Tree C03.Fold C03.MiniJS.
 
-(* the full statement one would like: whenever math.Pow decides by a special
-   case, Number::exponentiate decides the same value *)
-Definition pow_special_cases_agree (x y : num) : Prop :=
-  forall r, go_pow_special x y = Some r ->
-  match spec_exponentiate_special x y with Some r' => num_same r r' = true | None => True end.
-
-(* 1 ** NaN: math.Pow says 1, ECMA-262 says NaN (also 1 ** +-Infinity, (-1) ** +-Infinity) *)
-Lemma fold_pow_special_cases_refuted_w :
-  exists x y, wf_num x /\ wf_num y /\ ~ pow_special_cases_agree x y.
-Proof.
-  exists (Fin false 1 0), NaN. split; [cbn; lia|]. split; [exact I|].
-  intro H. specialize (H _ eq_refl). vm_compute in H. discriminate.
-Qed.
-
-Lemma fold_pow_all_five_witnesses :
-  map (fun p => match go_pow_special (fst p) (snd p), spec_exponentiate_special (fst p) (snd p) with
-                | Some a, Some b => num_same a b | _, _ => true end)
-      [(Fin false 1 0, NaN); (Fin false 1 0, Inf false); (Fin false 1 0, Inf true);
-       (Fin true 1 0, Inf false); (Fin true 1 0, Inf true)]
-  = [false; false; false; false; false].
-Proof. vm_compute. reflexivity. Qed.
-
-(* the part that holds on the whole boundary grid of the harness: every pair
-   of grid values outside the |base| = 1 family agrees (finite domain, stated) *)
-Definition pow_grid : list num :=
-  [Fin false 0 0; Fin true 0 0; Fin false 1 0; Fin true 1 0; Fin false 2 0; Fin true 2 0; Fin false 1 (-1); Fin true 1 (-1);
-   Fin false 3 (-1); Fin true 3 (-1); Fin false 3 0; Fin true 3 0; Fin false 1 (-1074); Fin false (two53 - 1) 0; Fin false two53 0;
-   Fin false (two53 + 2) 0; Fin true (two53 - 1) 0; Fin false 1 1000; Fin true 1 1000; Inf false; Inf true; NaN;
-   Fin false (two53 - 1) (-53); Fin false (two52 + 1) (-52); Fin true (two53 - 1) (-53); Fin false (two32 + 1) 0; Fin true (two32 + 1) 0].
-
-Definition bad_family (x y : num) : bool :=
-  (num_eq x (Fin false 1 0) && (is_nan y || match y with Inf _ => true | _ => false end))
-  || (num_eq x (Fin true 1 0) && match y with Inf _ => true | _ => false end).
-
-Lemma fold_pow_special_cases_partial_grid :
-  forallb (fun x => forallb (fun y =>
-    bad_family x y ||
-    match go_pow_special x y with
-    | Some r => match spec_exponentiate_special x y with Some r' => num_same r r' | None => true end
-    | None => true
-    end) pow_grid) pow_grid = true.
-Proof. vm_compute. reflexivity. Qed.
-
 (* ---- SimplifyUnusedExpr on an unused object literal with a computed key ------- *)
 Section UnusedKey.
   Definition ub (r : Z) : bool := 1000 <=? r.
